@@ -107,6 +107,9 @@ ApplyConfig(m, o, e, obj, step) ==
   \* (also on an online monitor, and with the same period re-stated in another unit: the operators keep their sample counts)
   IF "tol" \in DOMAIN e /\ m.phase \in {"parsed", "offline", "online", "pastified"} /\ e.period = m.cfg.period
   THEN R([m EXCEPT !.cfg = [m.cfg EXCEPT !.tol = e.tol]], o, ExcClass(TRUE, e, "config.exc", step), 0) ELSE
+  \* set_var_io_type() and parse() again on an object that was not fed online yet (C06): the predicates follow the new declarations
+  IF "io" \in DOMAIN e /\ m.phase \in {"parsed", "offline"}
+  THEN R([m EXCEPT !.cfg = [m.cfg EXCEPT !.M = [sem |-> m.cfg.M.sem, io |-> e.io]]], o, ExcClass(TRUE, e, "config.exc", step), 0) ELSE
   IF ~IsWritten(obj) \/ m.phase \notin {"parsed", "offline"} THEN R(m, [o EXCEPT !.dead = TRUE], Ok, 0)
   ELSE LET st == NormStatus(obj.written, e.units) IN
        IF st = "overflow" THEN R(m, [o EXCEPT !.dead = TRUE], Ok, 1)
